@@ -157,6 +157,106 @@ func main() {
 		o.Set("oracle.intentOp", "txn.go:oracle.hasConflict", iop, iok, "gt")
 	}
 
+	// ---- hasConflict: is the intent-table pass final (a `return false` closing the
+	// `if o.intentTable != nil` block) or does the committedTxns scan follow?
+	{
+		fd := tx.Func("oracle.hasConflict")
+		val, ok := "", false
+		if fd != nil {
+			ast.Inspect(fd.Body, func(n ast.Node) bool {
+				is, isIf := n.(*ast.IfStmt)
+				if !isIf || tx.Src(is.Cond) != "o.intentTable != nil" || len(is.Body.List) == 0 {
+					return true
+				}
+				ok = true
+				if tx.Src(is.Body.List[len(is.Body.List)-1]) == "return false" {
+					val = "true"
+				} else {
+					val = "false"
+				}
+				return true
+			})
+			// the scan over committedTxns must be reachable after it and end in `return false`
+			hasScan := false
+			ast.Inspect(fd.Body, func(n ast.Node) bool {
+				if rs, isR := n.(*ast.RangeStmt); isR && tx.Src(rs.X) == "o.committedTxns" {
+					hasScan = true
+				}
+				return true
+			})
+			if !hasScan || len(fd.Body.List) == 0 || tx.Src(fd.Body.List[len(fd.Body.List)-1]) != "return false" {
+				ok = false
+			}
+		}
+		o.Set("oracle.intentFinal", "txn.go:oracle.hasConflict", val, ok, "false")
+	}
+
+	// ---- cleanup: an intent entry is deleted only while it still points at the pruned txn
+	{
+		fd := tx.Func("oracle.cleanupCommittedTransactions")
+		val, ok := "", false
+		if fd != nil {
+			conds := tx.IfWithBodyContaining(fd.Body, "delete(o.intentTable, k)")
+			guarded := false
+			for _, c := range conds {
+				if c == "ok && ts == txn.ts" && strings.Contains(tx.Src(fd.Body), "if ts, ok := o.intentTable[k]; ok && ts == txn.ts {") {
+					guarded = true
+				}
+			}
+			if strings.Contains(tx.Src(fd.Body), "delete(o.intentTable, k)") {
+				ok = true
+				if guarded {
+					val = "true"
+				} else {
+					val = "false"
+				}
+			}
+		}
+		o.Set("oracle.intentDelGuard", "txn.go:oracle.cleanupCommittedTransactions", val, ok, "true")
+	}
+
+	// ---- TxnIterator.advance: every returned item goes into the read set
+	{
+		ti := o.Load("txn_iterator.go")
+		fd := ti.Func("TxnIterator.advance")
+		val, ok := "", false
+		if fd != nil {
+			conds := ti.IfWithBodyContaining(fd.Body, "it.txn.addReadKey(encoded)")
+			switch {
+			case len(conds) == 1 && conds[0] == "it.txn != nil":
+				val, ok = "true", true
+			case len(conds) == 2 && conds[0] == "it.txn != nil" && conds[1] == "version < it.readTs":
+				val, ok = "false", true
+			}
+			if !ti.HasStmt(fd.Body, "encoded := kv.EncodeKeyWithCF(it.entry.CF, it.entry.Key)") {
+				ok = false
+			}
+		}
+		o.Set("txnit.trackAll", "txn_iterator.go:TxnIterator.advance", val, ok, "true")
+	}
+
+	// ---- initCommitState: seeding of the timestamp allocator after Open
+	{
+		fd := tx.Func("oracle.initCommitState")
+		op, ok := tx.FindCmp(body(fd), "committed", "o.nextTxnTs.Load()")
+		if !ok && fd != nil && strings.Contains(tx.Src(fd.Body), "if next := o.nextTxnTs.Load(); committed ") {
+			op, ok = tx.FindCmp(fd.Body, "committed", "next")
+		}
+		if ok {
+			ok = tx.HasStmt(fd.Body, "o.nextTxnTs.Store(committed + 1)") && tx.HasStmt(fd.Body, "o.readMark.SetDoneUntil(committed)") &&
+				tx.HasStmt(fd.Body, "o.lastCleanupTs = committed") && tx.HasStmt(fd.Body, "o.txnMark.SetLastIndex(committed)")
+			early := false
+			for _, c := range tx.IfWithBodyContaining(fd.Body, "return") {
+				if c == "o == nil || committed == 0" {
+					early = true
+				}
+			}
+			nw := tx.Func("newOracle")
+			ok = ok && early && nw != nil && tx.HasStmt(nw.Body, "orc.nextTxnTs.Store(1)")
+		}
+		o.Set("oracle.seedOp", "txn.go:oracle.initCommitState", op, ok, "ge")
+	}
+
 	// ---- cleanupCommittedTransactions
 	{
 		fd := tx.Func("oracle.cleanupCommittedTransactions")
@@ -265,11 +365,13 @@ open NoKV NoKV.Mvcc
 
 def mvccCfg : MvccCfg :=
   { readTsOff := %s, trackGet := %s, checksConflict := %s, skipOp := %s, intentOp := %s,
+    intentFinal := %s, intentDelGuard := %s, scanTrackAll := %s, seedOp := %s,
     recordsCommit := %s, pruneOp := %s, countOp := %s, sizeOp := %s, sendCountOp := %s,
     sendSizeOp := %s, wmTracksZero := %s, wmHoldsAtDone := %s }
 
 end NoKV.Generated.Mvcc
 `, f["oracle.readTsOff"], f["txn.trackGet"], f["oracle.checksConflict"], elib.LeanOp(f["oracle.skipOp"]), elib.LeanOp(f["oracle.intentOp"]),
+		f["oracle.intentFinal"], f["oracle.intentDelGuard"], f["txnit.trackAll"], elib.LeanOp(f["oracle.seedOp"]),
 		f["oracle.recordsCommit"], elib.LeanOp(f["oracle.pruneOp"]), elib.LeanOp(f["txn.countOp"]), elib.LeanOp(f["txn.sizeOp"]),
 		elib.LeanOp(f["db.sendCountOp"]), elib.LeanOp(f["db.sendSizeOp"]), f["wm.tracksZero"], f["wm.holdsAtDone"])
 	o.Write(*jsonOut, *leanOut, lean)
